@@ -56,6 +56,9 @@ def run(e: Engine, rep: Report):
              'loop')
     rep.rule('R1.9', 'a per-recipient result mapping built by a relay is '
              'total over envelope.recipients on every path that returns it')
+    rep.rule('R1.10', 'a builtin used by a package __init__ is not '
+             'shadowed by a submodule of the same name (importing '
+             'slimta.queue.dict rebinds `dict` in slimta.queue)')
     rep.not_decided += ['that retries eventually happen (scheduling '
                         'structure is C12)', 'behaviour of real redis / S3',
                         'what a custom relay returns']
@@ -76,6 +79,7 @@ def run(e: Engine, rep: Report):
     r17(e, rep)
     r18(e, rep)
     c11.n7(e, rep, 'R1.9')
+    r110(e, rep)
     rep.floor('R1.2', 5, 'removal sites')
     rep.floor('R1.5', 3, 'backend uses of the index argument')
 
@@ -660,3 +664,53 @@ def r18(e: Engine, rep: Report):
                           'no bounce loop follows', loc=t.loc(),
                           reason='for ... in _split_by_reply(...): '
                           '_perm_fail')
+
+
+# ------------------------------------------------------------------- R1.10
+def r110(e: Engine, rep: Report):
+    """Importing package.sub binds the name `sub` in the package namespace.
+    If `sub` is also a builtin that the package __init__ calls, that call
+    breaks as soon as the submodule has been imported.  In slimta.queue this
+    hits the Sequence arm of Queue._attempt (`dict(zip(...))`): the attempt
+    dies before any disposition and the message stays in flight forever."""
+    from ..model import BUILTIN_NAMES
+    import builtins
+    n = 0
+    for m in e.p.modules.values():
+        if not m.is_pkg or not m.name.startswith('slimta.queue'):
+            continue
+        subs = {x.name.rpartition('.')[2] for x in e.p.modules.values()
+                if x.name.startswith(m.name + '.') and
+                '.' not in x.name[len(m.name) + 1:]}
+        shadow = {x for x in subs if hasattr(builtins, x) and
+                  x not in m.imports and x not in m.globals and
+                  x not in m.classes and x not in m.functions}
+        if not shadow:
+            continue
+        for f in e.p.functions.values():
+            if f.module is not m:
+                continue
+            from ..facts import local_names
+            loc = local_names(f)
+            for node in walk_own(f.node):
+                if isinstance(node, ast.Name) and node.id in shadow and \
+                        isinstance(node.ctx, ast.Load) and \
+                        node.id not in loc:
+                    n += 1
+                    rep.evaluations += 1
+                    rep.functions.add(f.qname)
+                    rep.bad('R1.10', f.qname,
+                            'builtin `%s` used in a package that has a '
+                            'submodule of that name' % node.id,
+                            'once %s.%s has been imported, `%s` in %s is '
+                            'that module, not the builtin: this call raises '
+                            'TypeError. In Queue._attempt it sits in the '
+                            'arm for sequence results: the attempt dies '
+                            'before any disposition and the message stays '
+                            'in flight (never retried, bounced or removed)'
+                            % (m.name, node.id, node.id, f.qname),
+                            loc=f.loc(node))
+    if n == 0:
+        rep.ok('R1.10', 'slimta.queue', 'no builtin shadowed by a '
+               'submodule is used', reason='checked every Name load in '
+               'the package __init__')
